@@ -35,6 +35,7 @@ FRAGMENTS = [
     "/*", "*/", ";", "'", "'abc'", "'ab\\'",
     "lda", "nop", "lda.w", "lda #0x12", "lda (0x12,x)", "bra l", "mm(", "mm(1)", "a", "l:", "a.b", "a.b.c", "0x", "0b", "12", "0x1F",
     "identifier=1", "bank_range=0x00, 0x3f", "mask=0x8000", "writable=1",
+    ".for i := 3, 1 {", ".for i := 0, 0-1 {", ".if 0-1 {",
 ]
 FRAGMENTS_T = [".macro", ".if", ".for", ".map", "{", "}", "{{", "(", ")", ",", ":=", "/*", "*/", ";", "'", "lda", "lda.w", "mm(", "a", "l:", "12",
                "identifier=1", "=", "#"]
@@ -48,7 +49,7 @@ def bound(tier):
     if tier == "thorough":
         return "all strings <=5 over 28 chars; all fragment sequences <=3 over 74 fragments and 4 over 24 fragments x 2 separators; token mutations of 8 programs"
     return ("all strings <=4 over 28 chars; all fragment sequences <=2 over 74 fragments and of length 3 over 42 core fragments, x 2 separators; "
-            "token mutations of 8 programs; pathological nesting/recursion family")
+            "token mutations of 8 programs; pathological nesting/recursion family; all loop-bound pairs in [-3,3]^2")
 
 
 def cases(tier, seed):
@@ -225,7 +226,17 @@ def run_special():
              ".for i := 0, 300 {\n.db i\n}\n", ".macro m(a) {\n.if a {\nm(a-1)\n}\n}\nm(300)\n", "-" * 500 + "1", "~" * 300 + "1", "l: " * 300]
     for t in texts:
         evals += run_input(t, ENTRIES_PROG, viol, stats, big=True)
-    return finish(evals, viol, stats, {"input": "pathological nesting / recursion / long tokens"})
+    # every loop-bound pair, literal and through constants / macro parameters: empty and reversed ranges must simply end
+    for a in range(-3, 4):
+        for b in range(-3, 4):
+            lo = str(a) if a >= 0 else f"0-{-a}"
+            hi = str(b) if b >= 0 else f"0-{-b}"
+            for t in (f".for i := {lo}, {hi} {{\n.db i\n}}\n",
+                      f"ka := {lo}\nkb := {hi}\n.for i := ka, kb {{\n.db i\n}}\n",
+                      f".macro pad(n) {{\n.for i := 0, n {{\n.db 0\n}}\n}}\npad({hi})\n",
+                      f".macro rep(a, b) {{\n.for i := a, b {{\n.for j := b, a {{\n.db i\n}}\n}}\n}}\nrep({lo}, {hi})\n"):
+                evals += run_input(t, ENTRIES_PROG, viol, stats)
+    return finish(evals, viol, stats, {"input": "pathological nesting / recursion / long tokens; all loop-bound pairs in [-3,3]^2 (literal, constants, macro parameters)"})
 
 
 def run_case(case):
